@@ -1,4 +1,5 @@
 import Gv.Model.Seq
+import Gv.Model.Compress
 /-!
 Implementation-shaped model of `align.seqbag` / `align.align` (property C01).
 
@@ -379,5 +380,58 @@ def concat (other : List (String × Seq)) (clen : Int) (calpha : Nat) (b : Bag) 
         let leng : Int := match step2.1.rows with | r :: _ => (r.seq.length : Int) | [] => -1
         let bad := step2.1.rows.any fun r => (r.seq.length : Int) != leng
         ({ step2.1 with length := leng }, bad)
+
+/-! ### in-place operations whose row-level model lives elsewhere (C06, C12, C13)
+
+Those models work on plain `(name, sequence)` rows; the container hands them `pairs b` and writes the
+resulting sequences back into its rows, position by position (Go: `seq.sequence = …` through the
+pointers of `sb.seqs`; ids, names and the name index are not touched). -/
+
+def withSeqs (rows : List Row) (ps : List (String × Seq)) : List Row :=
+  List.zipWith (fun r p => { r with seq := p.2 }) rows ps
+
+/-- `seqbag.ReverseComplement`: an error (nothing touched) unless the alphabet is NUCLEOTIDS; then the
+rows in order, each complemented in place and reversed; the first residue without a complement stops
+everything with an error (rows before it done, that row complemented up to the residue, not reversed) -/
+def reverseComplement (b : Bag) : Bag × Bool :=
+  if b.alphabet != NUCLEOTIDS then (b, true)
+  else
+    let r := revcompRows (pairs b)
+    ({ b with rows := withSeqs b.rows r.1 }, r.2)
+
+/-- overwrite residue `j` of the row with pointer identity `i` -/
+def setInRow (i j : Nat) (c : Byte) (rows : List Row) : List Row :=
+  rows.map fun r => if r.id == i then { r with seq := setAt r.seq j c } else r
+
+/-- `align.ReplaceChar(seqname, site, newchar)`: the site is checked against the cached length, then the
+name is looked up in the index and the residue written through the pointer.  `none` = index panic (that
+row is shorter than the cached length: possible only after an operation that reported an error). -/
+def replaceChar (name : String) (site : Int) (c : Byte) (b : Bag) : Option (Bag × Bool) :=
+  if site < 0 then some (b, true)
+  else if site ≥ b.length then some (b, true)
+  else match idxLookup name b.index with
+    | none => some (b, true)
+    | some i =>
+      if b.rows.any (fun r => r.id == i && r.seq.length ≤ site.toNat) then none
+      else some ({ b with rows := setInRow i site.toNat c b.rows }, false)
+
+/-- `align.RemoveGapSites(cutoff, ends)` = `RemoveCharacterSites([GAP], cutoff, ends, false, false, false,
+false)`: the C12 model on the rows as they are, the new sequences written back through the pointers and the
+cached length reduced by the number of removed sites (an alignment of length −1 is returned untouched).
+`none` = index panic: the counting loop reads every row at every site below the cached length, so a row
+shorter than that (possible only after an operation that reported an error) cannot be read. -/
+def removeGapSites (test : Nat → Nat → Bool) (ends : Bool) (b : Bag) : Option (Bag × CleanResult) :=
+  if b.rows.any (fun r => r.seq.length < b.length.toNat) then none else
+  let r := removeCharacterSites test (pairs b) b.length b.alphabet [GAP] ends false false false false
+  some ({ b with rows := withSeqs b.rows r.rows, length := r.length }, r)
+
+/-- `align.Compress()` through the C13 model: the distinct column patterns (in the order of the radix-tree
+walk) overwrite the first residues of every row, the rows are cut there, the cached length becomes the number
+of patterns — also for an alignment of length −1, whose cached length becomes 0; returns the weights.
+`none` = index panic: every row is read at every site below the cached length. -/
+def compressBag (b : Bag) : Option (Bag × List Nat) :=
+  if b.rows.any (fun r => r.seq.length < b.length.toNat) then none else
+  let r := compress (pairs b) b.length
+  some ({ b with rows := withSeqs b.rows r.1, length := r.2.2 }, r.2.1)
 
 end Gv.Model
